@@ -1,8 +1,13 @@
 #!/usr/bin/env python3
-"""Regenerates MANIFEST.json from harness/manifest_entries.py (single source of truth)."""
+"""Regenerates MANIFEST.json from harness/manifest.d/Cxx.json (one file per claimed property:
+keys text, note, technique) and harness/manifest.d/not_claimed.json (optional reasons)."""
 import json, os, sys
 sys.path.insert(0, os.path.dirname(os.path.abspath(__file__)))
-from harness.manifest_entries import CHECKS, NOT_CLAIMED
+HERE = os.path.dirname(os.path.abspath(__file__))
+MD = os.path.join(HERE, 'harness', 'manifest.d')
+CHECKS = {fn[:-5]: json.load(open(os.path.join(MD, fn))) for fn in sorted(os.listdir(MD)) if fn.startswith('C') and fn.endswith('.json')}
+nc = os.path.join(MD, 'not_claimed.json')
+NOT_CLAIMED = json.load(open(nc)) if os.path.exists(nc) else {}
 props = [json.loads(l) for l in open(os.path.join(os.path.dirname(os.path.abspath(__file__)), 'properties.jsonl'))]
 ids = [p['id'] for p in props]
 checks = []
